@@ -97,6 +97,9 @@ func checkC06(c *Ctx) {
 		c.Rule("C06-R23", "Fini stops the Tty and joins the loops whatever Drain reports: once the teardown has marked the screen as not running every way out passes Tty.Stop (= C04-R17)")
 		c.Expect("C06-R23", 1)
 		checkTeardownCompletes(c, p, "C06-R23")
+		c.Rule("C06-R24", "further Screen calls do not panic after Fini, also on a screen whose Init found no terminal: outside the life-cycle functions (those calling Tty.Start/Stop/Close and the loops they start) every use of the screen's Tty is behind a non-nil test of it or the running flag (D57)")
+		c.Expect("C06-R24", 3)
+		checkTtyUsedBehindGuard(c, p, "C06-R24")
 		checkFiniSafeBeforeInit(c, p, "C06-R17", "simscreen")
 		for _, f := range []string{"tty", "ti"} {
 			ws := []string{}
